@@ -11,8 +11,11 @@ TARGETS = ["Base/Corr.vo", "Base/Fl.vo", "Base/Num.vo", "C01/Model.vo", "C01/Mod
            # sparse containers (round 3): shared models C11.Model, C03.Model, C03.ModelM; C03's theorems are cited
            "C11/Model.vo", "C03/Model.vo", "C03/ModelM.vo", "C03/PropsR2.vo", "C03/PropsM.vo",
            "C08/ModelS.vo", "C08/SpecS.vo", "C08/CorrS.vo", "C08/ProofsSparse.vo", "C08/ProofsSparseCite.vo",
-           "C08/ProofsVecSelf.vo", "C08/PropsS.vo"]
-PROPS = ["C08/Props.v", "C08/PropsS.v"]
+           "C08/ProofsVecSelf.vo", "C08/PropsS.vo",
+           # round 6: scalar operand = a cell of the receiver; receivers re-used over a history of orders
+           "C08/ModelSc.vo", "C08/CorrSc.vo", "C08/ProofsSc.vo", "C08/ProofsScDense.vo", "C08/PropsSc.vo",
+           "C08/ProofsHist.vo", "C08/PropsH.vo"]
+PROPS = ["C08/Props.v", "C08/PropsS.v", "C08/PropsSc.v", "C08/PropsH.v"]
 PARTIAL = ("Scalar theorems are about the shared register-file model coq/C01/Model.v (HEAD incl. the fixes 7035970, 2fc8894, d9fca78), for "
            "an ARBITRARY carrier (floats included, no ring law used): closed form of both combinators for every receiver, receiver "
            "independence of every single-step operation (20 one-operand ops, Add Sub Mul Div Pow Sqrt) under the computed side condition "
@@ -36,13 +39,33 @@ PARTIAL = ("Scalar theorems are about the shared register-file model coq/C01/Mod
            "refuted; dense MdotV / VdotM with identical vectors incl. the empty one; not-rejected aliasing of the sparse element-wise VECTOR ops "
            "and the sparse products on distinct operands = corollaries of C03's theorems. NOT proved for sparse: element-wise sparse MATRIX "
            "ops with the receiver among the operands (replayed for all stored patterns x nine element types + hunt), sparse vectors sharing "
-           "cells through Slice/Append (C11-SLICEWT territory), derivatives of sparse Real containers.")
+           "cells through Slice/Append (C11-SLICEWT territory), derivatives of sparse Real containers. "
+           "ROUND 6 (PropsSc.v, PropsH.v). Vector-scalar / matrix-scalar operations whose SCALAR operand is a cell (r.VmulS(a, r.At(k)), "
+           "VADDS.., MaddS.., MADDS..): closed form of the re-reading loop for ANY carrier and ANY operation on an abstract memory "
+           "(positions <= k see the old scalar, positions > k the value position k received, frame), the deep-copy call, and the EXACT "
+           "condition under which both agree (iff; safe: last cell, fixed point, scalar outside the receiver); refuted by witness = "
+           "known finding F-C08-SCALAR-ELEM; loop order is part of the statement. The dense VECTOR model replayed against Go is proved "
+           "to BE the abstract loop on well-formed slices (operand = receiver or another backing array). NOT proved: the same link for "
+           "dense MATRIX views (mEwS is tied by whole-heap replay on Slice/T views of all nine element types, generic and concrete, and "
+           "evaluated as a witness) and for SPARSE containers (no Coq model of a scalar that is a sparse cell: hunt only — closed form "
+           "evaluated with the library's scalar operations against the call on a detached copy of the scalar, all nine element types, "
+           "+ - * /, incl. the joint-iterator quirk that a zero-valued scalar cell is dropped = detached); division is hunt-only (the "
+           "replayed model is over Z). Real receivers re-used over a history of orders: Alloc / AllocForTwo leave the register untouched "
+           "or make every guarded getter read zero (any carrier; stale Hessian slice kept at order 0 is modelled and never read); "
+           "every step of generated histories (order 2 -> order 1 / 0 -> SetFloat64 / Reset -> in-place op with an order-2 operand, one "
+           "or two rounds, Real64 / Real32, generic / concrete) is replayed bit-exactly from Go's raw pre-state; NOT proved: a "
+           "history-level theorem that the in-place result equals the fresh-receiver result after Reset (single-step theorems + "
+           "alloc lemma + hunt).")
 CORPUS = os.path.join(vlib.ROOT, "corpus/C08/corpus.jsonl")
 
 # hunt sites that are defects owned by other properties' known findings (referenced, not duplicated)
 REFERENCED = {"alloc-diffN": "F-C20-DYADIC-ALLOC",
               # F-ALLOC inside the Real matrix product (accumulator of lower Order than the product term): see harness/c08/jets.go
               "MdotM-jets:mixed-order-entries": "F-ALLOC"}
+
+
+# hunt sites that are not violations of the property: the implementation left the semantics the theorems are about
+MODEL_DEVIATION_SITES = {"ScalarOp:behaves-as-deep-copy"}
 
 
 def all_known():
@@ -74,7 +97,7 @@ def corr(ctx, binary, n):
                       "harness failed on the implementation (crash while generating cases)")
         return []
     bad = []
-    for name in ("cases", "mat", "sp"):
+    for name in ("cases", "mat", "sp", "sc"):
         meta = json.load(open(os.path.join(ctx.dir, name + ".meta.json")))
         meta["name"] = name
         vlib.merge_meta(ctx, meta)
@@ -111,6 +134,13 @@ def describe(case):
     if case.get("scen"):
         s = case["scen"]
         return "%s %s" % (s["op"], s["pat"])
+    if case.get("sc"):
+        m = case["sc"]
+        return "scalar operand is a cell: %s, %s, element type %s, operation %s, scalar selector %s (%s,%s)" % (
+            "matrix" if m.get("mat") else "vector", m.get("pat"), m.get("typ"), m.get("op"), m.get("sw"), m.get("si"), m.get("sj"))
+    if case.get("hist"):
+        m = case["hist"]
+        return "a step of the history %s (kind %s, N %s)" % (m.get("pat"), m.get("kind"), m.get("n"))
     if case.get("sp"):
         m = case["sp"]
         return "sparse stream: %s %s, %s receiver, element type %s, stored pattern %s" % (
@@ -146,7 +176,11 @@ def run(ctx):
     ctx.cov["scratch_argument_is_operand_unsafe"] = h.get("tmp_alias_unsafe", {})
     unknown = []
     seen_kf = set()
+    model_dev = []   # inputs on which the implementation left the MODELLED semantics without violating the property
     for hit in h.get("hits", []):
+        if hit.get("site") in MODEL_DEVIATION_SITES:
+            model_dev.append(hit)
+            continue
         kf = is_known(hit)
         if kf:
             if kf["id"] not in seen_kf:
@@ -162,9 +196,14 @@ def run(ctx):
         for f in failures:
             ctx.violation({"obligation": f["target"], "lemma": f["lemma"], "errors": f["errors"]}, False,
                           "proof obligation no longer checks: %s %s" % (f["target"], f["lemma"] or ""))
-        if bad:
+        if bad and model_dev:
+            hit = model_dev[0]
+            ctx.violation({"hunt": hit, "failure": hit["failure"], "case": bad[0], "n_mismatching": len(bad),
+                           "obligation": "correspondence (model vs implementation) + theorems of coq/C08/PropsSc.v about the modelled semantics"},
+                          True, "model and implementation disagree on %d case(s); concrete input: %s" % (len(bad), hit["failure"]))
+        elif bad:
             ctx.violation({"case": bad[0], "n_mismatching": len(bad),
-                           "obligation": "correspondence C01.Corr.check / C08.Corr.mcheck / C08.CorrS.scheck (model vs implementation)"},
+                           "obligation": "correspondence C01.Corr.check / C08.Corr.mcheck / C08.CorrS.scheck / C08.CorrSc.sccheck (model vs implementation)"},
                           False, "model and implementation disagree on %d case(s) (first: %s), but no alias pattern violating the property was found"
                           % (len(bad), describe(bad[0])))
 
